@@ -285,6 +285,53 @@ func gen(tier string, rng *h.Rng, emit0 func(string)) {
 			}
 		}
 	}
+	// 3b. directed re-indexing: t-1 valid members plus neighbours' points relabelled by -1 / +1 / to an
+	// absent member (a verifier that evaluates the public polynomial at a shifted index would count them),
+	// and the same lists completed to a qualifying one (must then succeed)
+	nre := 120
+	if thorough {
+		nre = 1500
+	}
+	for k := 0; k < nre; k++ {
+		n := 2 + rng.Intn(8)
+		t := 1 + rng.Intn(n)
+		if t < 2 {
+			t = 2
+		}
+		if t > n {
+			continue
+		}
+		coeffs := c02.RandPoly(rng, t, 4+rng.Intn(2))
+		msgTok := h.Hex(rng.Bytes(rng.Intn(24)))
+		hs := c02.HashScalar(c02.Msg(msgTok))
+		perm := rng.Perm(n)
+		var es [][]byte
+		for _, i := range perm[:t-1] {
+			es = append(es, c02.ValidShare(coeffs, hs, i))
+		}
+		for _, j := range perm[t-1:] {
+			for _, d := range []int{-1, 1} {
+				if j+d < 0 {
+					continue
+				}
+				v := c02.ValidShare(coeffs, hs, j)
+				v[0], v[1] = byte((j+d)>>8), byte(j+d)
+				es = append(es, v)
+			}
+		}
+		if k%3 == 0 {
+			es = append(es, c02.ValidShare(coeffs, hs, perm[t-1]))
+		}
+		if k%2 == 0 {
+			p := rng.Perm(len(es))
+			sh := make([][]byte, len(es))
+			for a, b := range p {
+				sh[a] = es[b]
+			}
+			es = sh
+		}
+		emit(recLine(t, n, coeffs, msgTok, es))
+	}
 	// 4. k = t-1 valid members and a long tail of junk, larger n
 	nl := 60
 	if thorough {
